@@ -14,12 +14,14 @@ from ..gen import bocdags as D
 SPEC = dict(
     manifest=dict(
         category='proof',
-        text='Lean proves the emit side of the round trip for every list of cell records and each of the 6 valid option sets (the emitted bytes decode, under an independent strict '
-             'reader, to the same records and root: c03_emit_decodes) and the input-form part for EVERY byte string: bytes.fromhex(b.hex()) = b, b64decode(b64encode(b)) = b, and the '
-             'detection order of Boc.__init__ cannot misclassify a BoC (the base64 text of each of the three magics starts te6cc / aP9l8 / rMOnK, i.e. has a non-hex character within its first two characters), so the hex and base64 texts '
-             'yield the same bytes as the raw bytes (c03_forms_hex, c03_forms_base64). The composition with the library\'s parser, parse(to_boc t) = t, is stated in Properties/C03.lean '
-             'and is to be assembled from the parser model of C05 (Model/BocParse.lean); until then the parser side of this property is covered only by the oracle below. '
-             'Every run round-trips generated DAGs through the LIBRARY alone: 6 option sets x 3 input forms x 3 entry points with a structural comparison of the whole DAG.',
+        text='Lean proves the emit half and the input-form half of the round trip for ALL inputs. Emit (c03_emit_denotes = C04\'s c04_conforms): for every spec-valid typed tree of cells, each of the 6 '
+             'valid option sets and the order Cell.order computes, the bytes of the model of to_boc are accepted by an independent strict reader and denote exactly the same tree (bits, types, references '
+             'recursively; c03_same_tree_same_hash: the same tree has the identical hash). Input forms, for EVERY byte string: bytes.fromhex(b.hex()) = b, b64decode(b64encode(b)) = b, and the detection order '
+             'of Boc.__init__ cannot misclassify a BoC (the base64 text of each of the three magics starts te6cc / aP9l8 / rMOnK, i.e. has a non-hex character within its first two characters), so the '
+             'hex and base64 texts yield the same bytes as the raw bytes (c03_forms_hex, c03_forms_base64, c03_forms, c03_forms_emit). '
+             'NOT proved here: the library\'s PARSER (its model belongs to C05); the composition parse(to_boc t) = t is stated in Properties/C03.lean with the single lemma it needs from the parser model '
+             '(BocParse.deserialize_of_strict). Until then the parser half is covered by the oracle only: '
+             'every run round-trips generated DAGs through the LIBRARY alone: 6 option sets x 3 input forms x 3 entry points with a structural comparison of the whole DAG.',
         level_note='Trusted: Lean kernel (propext, Classical.choice, Quot.sound); Model/BocEmit.lean and Model/BocForms.lean as hand transcriptions (tied by sampled correspondence in C04 / here); '
                    'base64/binascii/bytes.fromhex behave as modelled; the parser half is NOT proved here (sampled round trips only: ~12k per quick run incl. 255/256/257 cells, payload 127..65536 bytes, '
                    'depth-1023 chains, exotic cells, maximal sharing; thorough: 65535/65536/70000 cells).',
